@@ -202,11 +202,12 @@ func TempDir() string {
 	}
 	mu.Lock()
 	tempDirs = append(tempDirs, d)
+	allTempDirs = append(allTempDirs, d)
 	mu.Unlock()
 	return d
 }
 
-var tempDirs []string
+var tempDirs, allTempDirs []string
 
 var origProcs = runtime.GOMAXPROCS(0)
 
@@ -276,6 +277,12 @@ func ReplayMain(fns map[string]func()) {
 			results = append(results, r)
 		}
 	}
+	// (directories of cases that were abandoned as hung are removed here)
+	mu.Lock()
+	for _, d := range allTempDirs {
+		os.RemoveAll(d)
+	}
+	mu.Unlock()
 	ob, _ := json.Marshal(results)
 	if err := os.WriteFile(out, ob, 0644); err != nil {
 		panic(err)
